@@ -264,6 +264,7 @@ func c05(c *Ctx) {
 
 	// ---- R5.3
 	n53 := 0
+	loaders53 := c.G.Loaders(core.ReaderPkgs) // fetchers and their thin wrappers; a wrapper's own forwarding call is not a subject
 	for _, fn := range c.G.Funcs() {
 		rel, ok := c.P.PkgOf(fn)
 		if !ok || rel != "hamt" || fn.Synthetic != "" {
@@ -275,7 +276,7 @@ func c05(c *Ctx) {
 		k := 0
 		for _, ci := range core.CallsIn(fn) {
 			callee := ci.Common().StaticCallee()
-			if callee == nil || !fetch[callee] {
+			if callee == nil || !loaders53[callee] || loaders53[fn] {
 				continue
 			}
 			n53++
@@ -526,9 +527,9 @@ func (c *Ctx) checkSkipBeforeOpen(reach, fetch map[*ssa.Function]bool) {
 					return ok && c.fieldOfAddr(fn, u.X) != nil && containsVar(posFields, c.fieldOfAddr(fn, u.X))
 				}
 				switch {
-				case bo.Op == token.LSS && isPos(bo.Y): // start < position
+				case (bo.Op == token.LSS || bo.Op == token.LEQ) && isPos(bo.Y): // start < position, start <= position
 					return true, true
-				case bo.Op == token.GTR && isPos(bo.X): // position > start
+				case (bo.Op == token.GTR || bo.Op == token.GEQ) && isPos(bo.X): // position > start, position >= start
 					return true, true
 				}
 				return false, false
